@@ -34,6 +34,7 @@ type pending struct {
 	sel     *Sel        // channel ops / selects
 	done    bool        // completed by a rendezvous partner
 	env     bool        // enabled only at a cost (timer etc.)
+	site    string      // calling function and position in the code under test (trace mode only)
 }
 
 type candKind int
@@ -66,6 +67,7 @@ type Point struct {
 }
 
 type envEvent struct {
+	id   int
 	name string
 	fire func()
 	live bool
@@ -91,8 +93,13 @@ type Exec struct {
 	KeepTrc  bool
 	freeFire int
 
-	Violations []string
+	Violations []Fault
 	vclock     int64
+	stepHash   uint64 // hash of the most recent step / environment event
+	seqHash    uint64 // order-sensitive hash of the executed operation sequence (determinism check)
+	envSeq     int
+	Stack      string   // stack of the panicking thread (not part of Status: addresses vary)
+	Blocked    []string // descriptions of the threads that were blocked when a deadlock was declared
 	fp         uint64
 	token      int
 	objs       []*objHB
@@ -106,9 +113,29 @@ var cur *Exec
 // Cur returns the active execution or nil (passthrough mode).
 func Cur() *Exec { return cur }
 
+// Fault is one oracle failure of an execution, under a stable finding key.
+type Fault struct{ Key, Msg string }
+
 // Fail records an oracle violation in the current execution.
-func (x *Exec) Fail(format string, a ...any) {
-	x.Violations = append(x.Violations, fmt.Sprintf(format, a...))
+func (x *Exec) Fail(key, format string, a ...any) {
+	for _, f := range x.Violations {
+		if f.Key == key {
+			return
+		}
+	}
+	x.Violations = append(x.Violations, Fault{key, fmt.Sprintf(format, a...)})
+}
+
+// Steps returns the number of scheduler steps of the execution.
+func (x *Exec) Steps() int { return x.steps }
+
+// Choices returns the choice sequence that reproduces this execution.
+func (x *Exec) Choices() []int {
+	c := make([]int, len(x.Points))
+	for i, p := range x.Points {
+		c[i] = p.Chosen
+	}
+	return c
 }
 
 // Step returns the logical time (number of scheduler steps so far).
@@ -154,9 +181,10 @@ func (x *Exec) threadExit(t *thread) {
 	if r := recover(); r != nil {
 		if _, ok := r.(abortT); !ok {
 			if x.Status == "" {
-				buf := make([]byte, 4096)
+				buf := make([]byte, 8192)
 				n := runtime.Stack(buf, false)
-				x.Status = fmt.Sprintf("panic in thread %d(%s): %v\n%s", t.id, t.name, r, buf[:n])
+				x.Status = fmt.Sprintf("panic in thread %d(%s): %v", t.id, t.name, r)
+				x.Stack = string(buf[:n])
 			}
 		}
 	}
@@ -226,9 +254,45 @@ func (x *Exec) point(p *pending) {
 		panic(abortT{}) // blocking-capable operation while unwinding: keep unwinding
 	}
 	t := x.running
+	if x.KeepTrc {
+		p.site = callSite()
+	}
 	t.pend = p
 	x.schedule(t)
 	t.pend = nil
+}
+
+func enginePkg(fn string) bool {
+	for _, p := range [...]string{"verif/mc/sched.", "verif/mc/vsync.", "verif/mc/vatomic.", "verif/mc/vtime.", "verif/mc/vctx.", "verif/mc/enum."} {
+		if strings.Contains(fn, p) {
+			return true
+		}
+	}
+	return false
+}
+
+// callSite returns "function file:line" of the innermost frame outside verif/mc.
+func callSite() string {
+	var pcs [24]uintptr
+	n := runtime.Callers(3, pcs[:])
+	fr := runtime.CallersFrames(pcs[:n])
+	for {
+		f, more := fr.Next()
+		if !enginePkg(f.Function) && f.Function != "" {
+			fn := f.Function
+			if i := strings.LastIndex(fn, "/"); i >= 0 {
+				fn = fn[i+1:]
+			}
+			file := f.File
+			if i := strings.LastIndex(file, "/"); i >= 0 {
+				file = file[i+1:]
+			}
+			return fmt.Sprintf("%s %s:%d", fn, file, f.Line)
+		}
+		if !more {
+			return ""
+		}
+	}
 }
 
 // Point is the entry for simple (non-channel) operations.
@@ -272,7 +336,36 @@ func Choose(n int, label string) int {
 	for i := 1; i < n; i++ {
 		costs[i] = costE
 	}
-	return x.choose(costs, "choose:"+label)
+	c := x.choose(costs, "choose:"+label)
+	x.foldResult(x.running, mix(hashStr(label), uint64(c)+1))
+	if x.KeepTrc {
+		x.Trace = append(x.Trace, fmt.Sprintf("T%d choose %s -> %d", x.running.id, label, c))
+	}
+	return c
+}
+
+// foldResult appends a pseudo-step to t's chain: a nondeterministic result (environment
+// answer, select case) that the happens-before fingerprint must distinguish.
+func (x *Exec) foldResult(t *thread, v uint64) {
+	if t == nil {
+		return
+	}
+	t.seq++
+	h := mix(mix(uint64(t.id)<<32|uint64(t.seq), t.hb), v)
+	t.hb = h
+	x.fp ^= h
+	x.stepHash = h
+	x.seqHash = mix(x.seqHash, h)
+}
+
+// TouchW marks obj as written by the current step / environment event (used by shims
+// whose single step changes several objects, e.g. a cancellation closing Done channels).
+func (x *Exec) TouchW(obj any) {
+	if obj == nil {
+		return
+	}
+	ob := x.objOf(obj)
+	ob.lastWrite, ob.reads = mix(x.stepHash, uint64(ob.id)), 0
 }
 
 func (x *Exec) choose(costs []int, desc string) int {
@@ -398,12 +491,14 @@ func (x *Exec) schedule(t *thread) {
 			// nothing can run for free: time passes. First costly candidate is free.
 			if len(paid) == 0 {
 				x.Status = "deadlock"
+				x.noteBlocked()
 				x.endFromInside(t)
 				return
 			}
 			x.freeFire++
 			if x.freeFire > 8 {
 				x.Status = "deadlock(timers only)"
+				x.noteBlocked()
 				x.endFromInside(t)
 				return
 			}
@@ -424,8 +519,12 @@ func (x *Exec) schedule(t *thread) {
 		if c.env != nil {
 			c.env.live = false
 			if x.KeepTrc {
-				x.Trace = append(x.Trace, fmt.Sprintf("env %s", c.env.name))
+				x.Trace = append(x.Trace, fmt.Sprintf("env %s#%d fires", c.env.name, c.env.id))
 			}
+			h := mix(hashStr("env:"+c.env.name), uint64(c.env.id))
+			x.fp ^= h
+			x.stepHash = h
+			x.seqHash = mix(x.seqHash, h)
 			c.env.fire()
 			continue // re-evaluate
 		}
@@ -455,7 +554,7 @@ func (x *Exec) schedule(t *thread) {
 			}
 		}
 		if x.KeepTrc {
-			x.Trace = append(x.Trace, fmt.Sprintf("T%d %s", u.id, u.pend.describe()))
+			x.Trace = append(x.Trace, fmt.Sprintf("T%d %s @ %s", u.id, u.pend.describe(), u.pend.site))
 		}
 		if u == x.lastRun {
 			x.consec++
@@ -468,6 +567,19 @@ func (x *Exec) schedule(t *thread) {
 		x.running = u
 		x.handoff(t, u)
 		return
+	}
+}
+
+func (x *Exec) noteBlocked() {
+	for _, u := range x.threads {
+		if u.done || u.pend == nil {
+			continue
+		}
+		d := fmt.Sprintf("T%d %s", u.id, u.pend.describe())
+		if u.pend.site != "" {
+			d += " @ " + u.pend.site
+		}
+		x.Blocked = append(x.Blocked, d)
 	}
 }
 
@@ -511,119 +623,6 @@ func (x *Exec) String() string {
 }
 
 // ---------------------------------------------------------------------------
-// explorer
-
-type Stats struct {
-	Execs, Steps, Deadlocks, Horizon, Panics, Violations int
-	Outcomes                                             map[string]int
-	First                                                *Exec
-}
-
-type Explorer struct {
-	MaxP, MaxE int
-	MaxSteps   int
-	Body       func(x *Exec)
-	Outcome    func(x *Exec) string
-	Stats      Stats
-	StopFirst  bool
-	HorizonBad bool
-	Cache      bool
-	seen       map[[2]uint64][][2]int
-	Pruned     int
-}
-
-func (e *Explorer) Explore() {
-	e.Stats.Outcomes = map[string]int{}
-	e.explore(nil)
-}
-
-func (e *Explorer) explore(prefix []int) bool {
-	x := Run(prefix, e.MaxSteps, false, e.Body)
-	e.Stats.Execs++
-	e.Stats.Steps += x.steps
-	bad := false
-	switch {
-	case strings.HasPrefix(x.Status, "deadlock"):
-		e.Stats.Deadlocks++
-		bad = true
-	case x.Status == "horizon":
-		e.Stats.Horizon++
-		if e.HorizonBad {
-			bad = true
-		}
-	case x.Status != "":
-		e.Stats.Panics++
-		bad = true
-	}
-	if len(x.Violations) > 0 {
-		e.Stats.Violations++
-		bad = true
-	}
-	if e.Outcome != nil {
-		e.Stats.Outcomes[e.Outcome(x)]++
-	}
-	if bad && e.Stats.First == nil {
-		e.Stats.First = x
-		if e.StopFirst {
-			return true
-		}
-	}
-	// budget used along the prefix
-	for i := len(prefix); i < len(x.Points); i++ {
-		p, pe := 0, 0
-		for j := 0; j < i; j++ {
-			switch x.Points[j].Costs[x.Points[j].Chosen] {
-			case costP:
-				p++
-			case costE:
-				pe++
-			}
-		}
-		pt := x.Points[i]
-		if e.Cache && x.Status == "" {
-			if e.seen == nil {
-				e.seen = map[[2]uint64][][2]int{}
-			}
-			key := [2]uint64{pt.FP, uint64(pt.Run+1)<<32 | uint64(pt.N)}
-			remP, remE := e.MaxP-p, e.MaxE-pe
-			dominated := false
-			for _, b := range e.seen[key] {
-				if b[0] >= remP && b[1] >= remE {
-					dominated = true
-					break
-				}
-			}
-			if dominated {
-				e.Pruned++
-				break // this state and its default continuation were expanded with at least these budgets
-			}
-			e.seen[key] = append(e.seen[key], [2]int{remP, remE})
-		}
-		for alt := 1; alt < pt.N; alt++ {
-			np, ne := p, pe
-			switch pt.Costs[alt] {
-			case costP:
-				np++
-			case costE:
-				ne++
-			}
-			if np > e.MaxP || ne > e.MaxE {
-				continue
-			}
-			child := make([]int, i+1)
-			for j := 0; j < i; j++ {
-				child[j] = x.Points[j].Chosen
-			}
-			child[i] = alt
-			if e.explore(child) && e.StopFirst {
-				return true
-			}
-		}
-	}
-	return false
-}
-
-// ---------------------------------------------------------------------------
 // environment events (deadlines) and virtual clock
 
 type EnvHandle struct{ e *envEvent }
@@ -640,7 +639,8 @@ func AddEnv(name string, fire func()) *EnvHandle {
 	if x == nil {
 		return nil
 	}
-	e := &envEvent{name: name, fire: fire, live: true}
+	x.envSeq++
+	e := &envEvent{id: x.envSeq, name: name, fire: fire, live: true}
 	x.envs = append(x.envs, e)
 	return &EnvHandle{e}
 }
@@ -718,11 +718,17 @@ func (x *Exec) account(u *thread) {
 		for _, c := range p.sel.cases {
 			if c.st != nil {
 				touch(c.st, true)
+				if c.st.timer != nil {
+					touch(c.st.timer, true)
+				}
 			}
 		}
 		for _, c := range p.sel.cases {
 			if c.st != nil {
 				commit(c.st, true)
+				if c.st.timer != nil {
+					commit(c.st.timer, true)
+				}
 			}
 		}
 	} else {
@@ -731,6 +737,8 @@ func (x *Exec) account(u *thread) {
 	}
 	u.hb = h
 	x.fp ^= h
+	x.stepHash = h
+	x.seqHash = mix(x.seqHash, h)
 }
 
 // pendHash summarises which threads exist / are done (cheap guard against collisions between
